@@ -95,7 +95,7 @@ class C04(Suite):
             def do(r):
                 reqs.append(r)
                 rep = dev.request(r)
-                outs.append(rep + "@" + dev.dump())
+                outs.append(rep + "@" + dev.dump(class_level=True))
                 return rep
 
             code = lc.TYPES[ty]
